@@ -234,6 +234,11 @@ CIF = H("ZZAnnouncerCompleteInFlight", "internal/announcer", "the download compl
 C["C16"]["harnesses"] += [CIF]
 C["C15"]["harnesses"] += [CIF]
 
+WS3 = H("ZZPickerWebseed3", "torrent", "downloading 3-piece torrent with 2 web-seed sources (limit 1..2 concurrent) and one peer with an arbitrary bitfield; every sequence of 3 events - peer unchokes / chokes / completes its piece (hash ok or not) / disconnects, a web seed finishes the piece it is on and its write completes (hash ok or not) or its request fails -: peer-side request clauses, plus web-seed ranges never overlap, range bookkeeping consistent with the picker's per-piece owner, active-download count exact and within the limit, no crash (internal panics)", T(40, 1800, 6, 6, flags=["-nospawn"]), T(40, 1800, 6, 6, flags=["-nospawn"]), replay="model")
+C["C09"]["harnesses"] += [WS3, H("ZZPickerWebseed4", "torrent", "4 events", None, T(40, 7000, 32, 8, flags=["-nospawn"]), replay="model")]
+C["C17"]["harnesses"] += [WS3]
+C["C09"]["assumptions"] = [a for a in C["C09"]["assumptions"] if "web-seed ranges are not exercised" not in a] + ["web-seed download goroutine not run: its results (piece finished / request failed) are events, produced exactly as urldownloader.Run's completePiece does"]
+
 for pid, spec in C.items():
     spec = dict(property=pid, **spec)
     json.dump(spec, open(os.path.join(D, pid + ".json"), "w"), indent=1)
